@@ -1629,9 +1629,61 @@ struct thrower
     return D{static_cast<int>(table)};
   }
 };
+// a small exception hierarchy: try_call<xbase> documents that the failure is to_exception(e) for the exception e that
+// was thrown, so a translator that looks at the dynamic type must see the thrown object, not a base-class copy of it
+struct xbase
+{
+  explicit xbase(int k) : v(k) {}
+  xbase(xbase const &) = default;
+  virtual ~xbase() = default;
+  virtual int code() const { return v; }
+  int v;
+};
+struct xmid : xbase
+{
+  explicit xmid(int k) : xbase(k) {}
+  int code() const override { return 10 + v; }
+};
+struct xleaf : xmid
+{
+  explicit xleaf(int k) : xmid(k) {}
+  int code() const override { return 20 + v; }
+};
+
 void e_try_call()
 {
   ENTRY("either::try_call");
+  // thrown class x caught class (base or exact) x payload: the translator reports code() and the dynamic type
+  row(entry, 1000, [&] {
+    for (int thrown = 0; thrown < 3; ++thrown)
+      for (int k = 0; k < 3; ++k)
+      {
+        set_ops(thrown, k);
+        begin_eval();
+        auto const f = [&]() -> D {
+          lib_log().push_back(call{1, thrown, NOARG, NOARG, NOARG});
+          if (thrown == 0)
+            throw xbase{k};
+          if (thrown == 1)
+            throw xmid{k};
+          throw xleaf{k};
+        };
+        int seen_code = -1, seen_type = -1;
+        auto const conv = [&](xbase const &e) {
+          seen_code = e.code();
+          seen_type = dynamic_cast<xleaf const *>(&e) ? 2 : dynamic_cast<xmid const *>(&e) ? 1 : 0;
+          return E{k};
+        };
+        ED r = fcppt::either::try_call<xbase>(f, conv);
+        model_log().push_back(call{1, thrown, NOARG, NOARG, NOARG});
+        judge(cx, "derived-exception/value", enc(r), md::fail(k), false);
+        if (seen_code != thrown * 10 + k || seen_type != thrown)
+          vf::violation(cx.fn + "/derived-exception/translator-saw-a-different-object", "mismatch",
+                        "thrown class " + std::to_string(thrown) + " payload " + std::to_string(k) + ": translator saw class " +
+                            std::to_string(seen_type) + " code " + std::to_string(seen_code));
+        VF_COUNT("try_call/derived-exception-thrown");
+      }
+  });
   for (long t = 0; t < 27; ++t)
     row(entry, t, [&] {
       tfn<E, xc> conv{2, t};
